@@ -9,6 +9,10 @@ TRUST = ('Trusted: nightly MIR == what stable rustc builds (counterexamples are 
          '(listed per run in the evidence, validated by the concrete differential self-test against the native binary). ')
 
 CLAIMED = {
+    'C08': ('The whole nom grammar of src/filter.rs is executed from MIR. Raw lane: every byte string of <=5 (7) bytes over all 256 values is compared with a forking reference RFC 4515 parser/compiler written for the check (accepted iff in the grammar + documented extensions; BER equals the encoding of the syntax tree; no path panics). Grammar lane: 23 symbolic AST shapes (all item kinds, substring patterns, every extensible-match combination, and/or/not nesting) printed with a symbolic raw-or-\\hh choice per value byte and symbolic hex case.',
+            TRUST + 'nom combinator glue is modelled from nom 7.1.3 source. Strings longer than the bounds and ASTs outside the 23 shapes are outside the claim; a dot-less numeric OID is tolerated.', '§6 C08'),
+    'C09': ('ldap_escape, dn_escape and ldap_unescape run from MIR over every well-formed UTF-8 string of <=3 (5) bytes (full byte range incl. NUL, metacharacters, multi-byte sequences): z3 proves the escaped text reads back to v under reference RFC 4515 / RFC 4514 value readers written for the check, unchanged-when-nothing-to-escape, ldap_unescape(ldap_escape(v)) == v, and that (a=<esc>) / (a=x*<esc>*y) parse (real grammar, from MIR) to the same structure with value v.',
+            TRUST + 'Longer strings are outside the bound.', '§6 C09'),
     'C05': ('One inductive step of the real Ldap::next_msgid from an arbitrary pre-state: the counter ranges over all of 0..=2^31-1 and the in-use set is an unconstrained z3 array; on every path z3 proves the issued ID is in 1..2^31-1, not in use, inserted (and nothing else changes), becomes the counter, and is the first free successor in cyclic order MAX->1, with no overflow panic at the wrap-around point.',
             TRUST + 'Fewer than 5 (17) consecutive occupied successors (cut recorded); atomicity across handles/threads rests on the mutex guard being held over the whole body, checked syntactically on the MIR; that release sites only remove their own ID belongs to C13/C01.', '§6 C05'),
     'C15': ('Every feasible path of the real SearchEntry::construct over well-formed entries with <=2 attributes x <=2 (3) values of 0..3 (4) fully symbolic bytes: z3 proves DN equality, exactly-one-map membership, text map iff all values valid UTF-8 with values in order, binary map = multiset of values. Every valid/invalid UTF-8 pattern in every order is covered because validity is left to the solver.',
